@@ -1,3 +1,4 @@
+\* x42
 SPECIFICATION Spec
 CONSTANTS
   Cand <- Cand4
@@ -10,5 +11,10 @@ CONSTANTS
   Dev_AttachNoEdge = FALSE
   Dev_DscNotForced = TRUE
 INVARIANT TypeOK
+INVARIANT Inv_W0
+INVARIANT Inv_W1
+INVARIANT Inv_W2
+INVARIANT Inv_W3
+INVARIANT Inv_W4
 INVARIANT Inv_Verdict
 CHECK_DEADLOCK FALSE
